@@ -50,6 +50,23 @@ def task(W, payload):
     if len(reqs) < 3:
         bump(out, "too_few_requests"); return out
     base_ops = [op for op in ops if op["op"] != "request"]
+    # independent requests that select DIFFERENT flows of one name through the same stratum: a chain st0 -> st1 -> st2 (or back to st0) inside
+    # one compartment, one request filtering the source by st1, its twin filtering the destination by st1
+    strat_ops = [op for op in base_ops if op["op"] == "stratify" and len(op["strata"]) >= 2]
+    if strat_ops and r.random() < 0.7:
+        so = r.choice(strat_ops)
+        st = sorted(so["strata"], key=int) if so["kind"] == "age" else list(so["strata"])
+        c = r.choice(so["comps"])
+        hops = [(st[0], st[1]), (st[1], st[2] if len(st) > 2 else st[0])]
+        for a, b in hops:
+            base_ops.append({"op": "flow", "kind": "transition", "name": "xchain", "param": {"c": r.choice(["1/8", "1/4", "1/16"])}, "src": c, "dst": c,
+                             "src_strata": [[so["name"], a]], "dst_strata": [[so["name"], b]]})
+        pair = [{"op": "request", "name": "xs", "kind": "flow", "flow": "xchain", "raw": r.random() < 0.5, "src_strata": [[so["name"], st[1]]], "save": True},
+                {"op": "request", "name": "xd", "kind": "flow", "flow": "xchain", "raw": r.random() < 0.5, "dst_strata": [[so["name"], st[1]]], "save": True}]
+        r.shuffle(pair)
+        at = r.randint(0, len(reqs))
+        reqs = reqs[:at] + pair + reqs[at:]
+        bump(out, "chain_twin_requests")
     all_saved = [dict(op, save=True) for op in reqs]
     full, err = run_variant(W, base_ops + all_saved, prog["params"])
     out["evals"] += 1
